@@ -179,7 +179,9 @@ def c09(tier, seed, work):
                 dict(name="c09-nosess", insess=False, cmds="CmdsAB", maxcalls=2, maxatt=3, kinds="KindsRetryNS", auth=1, integ=1)]
         mc = [("MCConsole", "MC_Console_sess.cfg"), ("MCConsole", "MC_Console_nosess.cfg")]
     res = console_check("C09", tier, seed, work, mc, fams, COMMON_ASSUME,
-                        hs_fams=[dict(name="c09-hs-retry", family="retry", tier=tier, seed=seed)])
+                        hs_fams=[dict(name="c09-hs-retry", family="retry", tier=tier, seed=seed),
+                                 # several sessions one after another on one connection, closes that fail and are tried again
+                                 dict(name="c09-lifecyclex", family="lifecyclex", tier=tier, seed=seed)])
     return add_walk(res, work, [dict(name="c09-api", module="MCGenApi", cfg_tpl="Gen_Cipher.cfg.tpl", family="api", tier=tier, seed=seed),
                                 # a command retransmitted 255 .. 300 times, then another command
                                 dict(name="c09-longbusy", module="MCGenSensor", cfg_tpl="Gen_Cipher.cfg.tpl", family="lun", tier=tier, seed=seed)],
@@ -254,7 +256,9 @@ def c04(tier, seed, work):
         fams = [dict(name="c04-forge", insess=True, cmds="CmdsAB", maxcalls=2, maxatt=2, kinds="KindsForge", auth=a, integ=i, codes="CodesOkErr"),
                 # group-extension (DCMI) commands and a command without a response body take other paths through the checks
                 dict(name="c04-forge-group", insess=True, cmds="CmdsGH", maxcalls=1, maxatt=3, kinds="KindsForge", auth=a2, integ=i2, codes="CodesOkErr"),
-                dict(name="c04-forge-nobody", insess=True, cmds="CmdsAC", maxcalls=1, maxatt=3, kinds="KindsForge", auth=a, integ=i, codes="CodesOkErr")]
+                dict(name="c04-forge-nobody", insess=True, cmds="CmdsAC", maxcalls=1, maxatt=3, kinds="KindsForge", auth=a, integ=i, codes="CodesOkErr"),
+                # an authentic "node busy" first, then forgeries until the context expires: still no result from a forgery
+                dict(name="c04-forge-busy", insess=True, cmds="CmdsAC", maxcalls=1, maxatt=3, kinds="KindsForge", auth=a2, integ=i2, codes="CodesOkBusy")]
         mc = [("MCConsole", "MC_Console_sess_quick.cfg")]
     else:
         fams = [dict(name="c04-forge-%d-%d" % s, insess=True, cmds="CmdsAB", maxcalls=2, maxatt=2, kinds="KindsForge", auth=s[0], integ=s[1])
@@ -262,6 +266,7 @@ def c04(tier, seed, work):
         fams.append(dict(name="c04-forge3", insess=True, cmds="CmdsAR", maxcalls=1, maxatt=4, kinds="KindsForge", auth=a, integ=i))
         fams.append(dict(name="c04-forge-group", insess=True, cmds="CmdsAGH", maxcalls=2, maxatt=2, kinds="KindsForge", auth=a, integ=i))
         fams.append(dict(name="c04-forge-nobody", insess=True, cmds="CmdsAC", maxcalls=2, maxatt=2, kinds="KindsForge", auth=a, integ=i))
+        fams.append(dict(name="c04-forge-busy", insess=True, cmds="CmdsAC", maxcalls=1, maxatt=4, kinds="KindsForge", auth=a, integ=i, codes="CodesOkBusy"))
         mc = [("MCConsole", "MC_Console_sess.cfg")]
     res = console_check("C04", tier, seed, work, mc, fams, COMMON_ASSUME)
     # tampering and forgery catalogue (GenForge.tla), validated with the generic walk trace spec
